@@ -263,7 +263,10 @@ func Program(t *rapid.T, f PFlags) Prog {
 		x, f := sym("x"), sym("f")
 		e1, e2 := g.leaf(TInt, sc), val.I(20+g.pick("tl2", 9))
 		var inner val.V
-		switch g.pick("tlinner", 3) {
+		switch g.pick("tlinner", 4) {
+		case 3:
+			// a let without bindings still has a scope of its own
+			inner = call("let", lst(), call("def", x, e2), call("list", x, lst(f)))
 		case 0:
 			inner = call("let", lst(x, e2), call("list", x, lst(f)))
 		case 1:
@@ -311,6 +314,30 @@ func Program(t *rapid.T, f PFlags) Prog {
 			return call("concat", sym("st"), call("list", val.I(k)))
 		}
 		forms = append(forms, call("def", sym("s1"), grow(1)), call("def", sym("s2"), grow(2)), call("trace!", call("list", sym("s1"), sym("s2"), sym("st"))))
+	}
+	// a scope that is empty when a closure is made below it (the call scope of a parameterless function, a let
+	// without bindings) receives a def afterwards: the closure sees it
+	if Chance(t, "late-def", 6) {
+		g.use("late-inner-def")
+		g.use("closure-capture")
+		forms = append(forms, call("def", sym("ld"), val.I(1)))
+		var mkClosure val.V
+		switch g.pick("ldvia", 3) {
+		case 0:
+			mkClosure = call("let", lst(sym("k"), val.I(0)), call("fn", lst(), sym("ld")))
+		case 1:
+			mkClosure = lst(call("fn", lst(sym("k")), call("fn", lst(), call("+", sym("k"), sym("ld")))), val.I(0))
+		default:
+			mkClosure = call("fn", lst(), sym("ld"))
+		}
+		body := []val.V{call("def", sym("get"), mkClosure), call("def", sym("ld"), val.I(2+g.pick("ld2", 7))), call("list", lst(sym("get")), sym("ld"))}
+		var outer val.V
+		if g.chance("ldlet", 2) {
+			outer = val.V{K: val.List, L: append([]val.V{sym("let"), lst()}, body...)}
+		} else {
+			outer = lst(val.V{K: val.List, L: append([]val.V{sym("fn"), lst()}, body...)})
+		}
+		forms = append(forms, call("trace!", outer), call("trace!", sym("ld")))
 	}
 	// a macro that is re-defined between two evaluations of the same call site
 	if f.Macros && Chance(t, "macro-redef", 5) {
